@@ -91,7 +91,7 @@ def cancel_rules(ck, C):
                 if not any(T.resolves_to_call(cn, x, peeks) for x in (st["rv"]["a"], st["rv"]["b"])):
                     continue
                 for sw, blk in enumerate(cn.blocks):
-                    if blk["term"]["t"] == "switch" and st["pl"]["l"] in T.copy_chain_locals(cn, blk["term"]["on"]):
+                    if blk["term"]["t"] == "switch" and (st["pl"]["l"] in T.copy_chain_locals(cn, blk["term"]["on"]) or any(r == ("rv", i, j) and not p for r, p in cn.resolve(blk["term"]["on"]))):
                         if T.reachable_only_via(cn, cs.bb, T.edges_of_value(cn, sw, True)):
                             ok = True
         ck.verdict(ok, C, "T4-guarded-by", cn, "fast-path-pop-only-if-head-has-this-counter", "the fast path pops the head only when its counter matches", "cancel pops the head of the heap without it carrying the cancelled counter", site=cn.where(cs.bb))
